@@ -6,7 +6,7 @@ import string
 from .core import rule, RuleResult
 from .model import AnalysisError, dotted, norm, walk_own
 from . import escape
-from .paths import Parents, always_exits
+from .paths import Parents, always_exits, enumerate_paths
 from .rules_p import validation_roots, validation_reach
 from .rules_d import fixture_ctx
 
@@ -493,6 +493,42 @@ def x5(ctx, res):
                           reason="handler cannot catch RecursionError" if not bad else
                           f"handler type {bad} catches RecursionError before the converting decorator sees it")
     res.floor("handlers_in_parse_graph", n_h, 2)
+
+
+@rule("X7", "no handler between the refusal and the caller of parse / parse_element can swallow the not-implemented error")
+def x7(ctx, res):
+    es = _escape(ctx)
+    reach = parse_reach(ctx)
+    n_try = 0
+    n_carrying = 0
+    for f in sorted(reach, key=lambda f: f.qualname):
+        for st in walk_own(f.body):
+            if not isinstance(st, ast.Try):
+                continue
+            n_try += 1
+            body = es._esc_stmts(st.body, f, None)
+            carried = {(exc, o) for (exc, o) in body if es.is_sub(exc, "FeatureNotImplementedError")}
+            if not carried:
+                res.ok(f, f"try at line-independent position: {norm(st.body[0])[:60]}", reason="the protected statements cannot raise the not-implemented error")
+                continue
+            n_carrying += 1
+            for h in st.handlers:
+                names = None if h.type is None else es.exc_names(h.type, f)
+                catches = [c for c in carried if names is None or any(es.is_sub(c[0], n) for n in names)]
+                if not catches:
+                    res.ok(f, f"except {norm(h.type) if h.type is not None else ''}:", reason="handler type does not cover the not-implemented error")
+                    continue
+                out = es._esc_stmts(h.body, f, (h, {c: None for c in catches}))
+                paths_ = enumerate_paths(h.body)
+                only_raises = all(p_.exit == "raise" for p_ in paths_)
+                carries = any(es.is_sub(exc, "FeatureNotImplementedError") for (exc, o) in out)
+                still = reraised = only_raises and carries
+                res.check(still and reraised, f, f"except {norm(h.type) if h.type is not None else ''}: (around {norm(st.body[0])[:50]})",
+                          detail={"caught": sorted({c[0] for c in catches}), "origin": sorted({c[1].text for c in catches})[:3]},
+                          reason="a not-implemented refusal raised inside the protected call is caught here and not re-raised: "
+                                 "the unsupported part is silently dropped")
+    res.stat("try_statements_in_parse_graph", n_try)
+    res.stat("try_statements_that_can_carry_the_refusal", n_carrying)
 
 
 @rule("X6", "no unbounded loop in the validation and parse graphs")
